@@ -85,6 +85,13 @@ func main() {
 	viol, code := rep.Conclude()
 	if rel := rep.Related(); len(rel) > 0 {
 		res.Coverage["related_mismatches_other_properties"] = rel
+		seen := map[string]bool{}
+		for _, f := range rel {
+			if !seen[f.Key] {
+				seen[f.Key] = true
+				fmt.Printf("NOTE: a mismatch attributed to %s was seen (not part of this verdict; run ./check %s): %s\n", f.Prop, f.Prop, f.Key)
+			}
+		}
 	}
 	core.WriteEvidence(env, res.Level, res.Coverage, res.Assumptions, viol)
 	if env.Replay != "" {
@@ -108,6 +115,9 @@ func worker(args []string) {
 	}
 	if args[0] == "cancel" && len(args) > 1 {
 		os.Exit(cancel.Worker(args[1]))
+	}
+	if args[0] == "spinner-start" {
+		os.Exit(decor.SpinnerStartWorker(args[1:]))
 	}
 	if args[0] == "spinner" {
 		os.Exit(decor.SpinnerWorker(args[1:]))
